@@ -15,7 +15,7 @@ PROP = 'C19'
 LEAN_MODULES = ['Glom.Props.C19']
 FACT_FILES = ['C19Facts', 'c19']
 READY = True
-THEOREMS_PER_MODULE = {'Glom.Props.C19': 8}
+THEOREMS_PER_MODULE = {'Glom.Props.C19': 9}
 MANIFEST = dict(
     text="PARTIAL proof. Lean 4 theorems over a code-shaped model of glom/cli.py (mw_get_target's source selection "
          "and precedence, first-character rule, spec_format/target_format tables extracted from the AST; "
@@ -23,8 +23,13 @@ MANIFEST = dict(
          "standard inputs and ALL behaviours of the externals, the ten deliveries of a spec (argument / --spec-file) "
          "and target (argument / --target-file / - / --target-file - / piped stdin) print exactly "
          "dumps(glom(load(target), literal(spec)), indent, sort_keys)+newline with exit 0 (c19_output), a GlomError "
-         "gives 'Class: message' and exit 1 (c19_glomerror_exit1), a rejected or unreadable target gives a "
-         "UsageError (c19_bad_target_usage_error, c19_unreadable_target_usage_error), and unless --spec-format is "
+         "gives 'Class: message' and exit 1 (c19_glomerror_exit1), a target the loader rejects — with ANY class a "
+         "loader raises on text — or that cannot be read (missing, a directory, bytes that are no UTF-8; file or "
+         "standard input) gives a UsageError, never another exception (c19_bad_target_usage_error, "
+         "c19_unreadable_target_usage_error: the model catches exactly the classes the `except` clauses of cli.py "
+         "NAME, per target format and per read, extracted on every run; c19_facts_wf demands `Exception` or a class "
+         "above every class the probe saw the format's loader raise, and OSError+UnicodeError around every read), "
+         "and unless --spec-format is "
          "given the outcome is independent of the exec-based evaluator and of json.loads: only repr and "
          "ast.literal_eval see the spec text (c19_model_no_exec). c19_never_executes is decided on the call/"
          "reference graph extracted from cli.py on every run: no eval/exec/compile/__import__/unsafe loader/"
@@ -36,7 +41,12 @@ MANIFEST = dict(
          "(C01-C18) and face's argument parsing are EXTERNAL: parameters of the model, exercised by the "
          "correspondence only (their outputs on the candidate texts are computed by the harness with the real "
          "functions and handed to the model as tables). Trusted fact about Python used by the proof: "
-         "ast.literal_eval(repr(s)) == s for every str s (hypothesis ReprOk, checked on every case). --debug/"
+         "ast.literal_eval(repr(s)) == s for every str s (hypothesis ReprOk, checked on every case); a loader "
+         "raises Exception subclasses only (LoadErrOk) and a failing text read an OSError or a UnicodeError "
+         "(ReadErrOk), both evaluated by the driver on every case. The PROBE (extract/facts/c19.py: the installed "
+         "json/ast/yaml/tomllib loaders run on a catalogue of 245 malformed texts, grouped by raised class: 22 "
+         "(loader, class) groups) is trusted to reach every class a loader can raise on text only where a handler does not "
+         "name Exception itself — the code as it is does (c19_handlers_name_exception). --debug/"
          "--inspect are not modelled. 'never executes' is about cli.py's own code: that ast.literal_eval and "
          "json.loads do not execute code is CPython's guarantee, exercised by the hostile corpus. Trusted: Lean "
          "kernel + {propext, Classical.choice, Quot.sound}; extractor (AST patterns of cli.py, the call graph "
@@ -51,14 +61,25 @@ RULE = ('type-directed: a JSON-representable target (nested dicts/lists/strings/
         'with --indent in {absent,0,1,2,4} and --scalar; a one-edit mutation stream truncates the target text, '
         'names a missing file, gives both an argument and a file, an unknown format, a missing path segment, an '
         'empty text, a target that is a complete document followed by garbage / a second document / a stray bracket '
-        'or preceded by a BOM, a malformed literal, --spec-format json / python-full (benign specs only); plus a corpus of '
+        'or preceded by a BOM, a malformed literal, --spec-format json / python-full (benign specs only); '
+        'MALFORMED TARGETS BY RAISED CLASS: the real loaders are probed with the catalogue of extract/facts/c19.py '
+        'and for every (loader, class it raises) — JSONDecodeError, plain ValueError of the digit limit, '
+        'RecursionError, SyntaxError, IndentationError, TypeError of unhashable keys, MemoryError of the parser '
+        'stack, the YAML Parser/Scanner/Composer/Reader/ConstructorError and the ValueError/AttributeError/KeyError/'
+        'IndexError of its scalar constructors, TOMLDecodeError … — a text of the group, bare or embedded as a leaf '
+        'of a generated document when that keeps the class, is delivered by argument, file, -, --target-file - and '
+        'piped stdin; UNREADABLE TARGETS: target file / standard input / spec file given as BYTES that are no UTF-8 '
+        '(Latin-1, UTF-16, a stray ff/80/c3, a truncated sequence, a cp1252 quote at a random position of a generated '
+        'document), as bytes that are UTF-8 (read like any text), as a directory; plus a corpus of '
         'hostile spec texts (calls, attribute access, lambdas, comprehensions, f-strings, dunder tricks), each '
         'planting a marker file, delivered by argument and by files named *.glom / *.py / *.PY / *.json / *.yml (spec-file names with such '
         'extensions are also used for benign specs). non-trivial = the property speaks about the '
         'case (result / GlomError / target usage error / malformed spec); distinct = distinct (argv, files, stdin)')
 TRUSTED = ['externals (parsers, literal_eval, repr, dumps, glom.glom, is_scalar, face) enter the model as tables '
            'computed by the harness with the real functions']
-ASSUMPTIONS = ['--debug / --inspect not used', 'positional arguments do not start with "-" except the single "-"']
+ASSUMPTIONS = ['--debug / --inspect not used', 'positional arguments do not start with "-" except the single "-"',
+               'standard input decodes strictly as UTF-8 (a UTF-8 locale; under the C locale CPython reads it with '
+               'surrogateescape and every byte string is text)']
 
 TMP = '/tmp/c19_%d' % os.getpid()
 T = '@T'
@@ -82,18 +103,53 @@ class Ids:
         return self.m[k]
 
 
+MROS = {}      # class name -> names of its MRO, for every class an external raised on this case
+
+
 def try_call(f, *a):
     try:
         return ('ok', f(*a))
-    except Exception as e:
+    except (Exception, SystemExit, GeneratorExit) as e:
+        MROS[type(e).__name__] = [c.__name__ for c in type(e).__mro__ if c is not object]
         return ('err', type(e).__name__)
+
+
+def file_bytes(c):
+    return bytes.fromhex(c['bytes'])
+
+
+def read_text(path):
+    with open(path) as f:         # text mode, default encoding: what the CLI does
+        return f.read()
+
+
+LONG_TEXT = 2000     # above this only the loader of the case's own format is run by the oracle
+FMT_KIND = {'json': 'json', 'yaml': 'yaml-safe', 'yml': 'yaml-safe', 'toml': 'toml', 'python': 'python-literal'}
 
 
 def oracle(case):
     import glom
     from boltons.iterutils import is_scalar
     av = case['argv']
-    files = {p: c for p, c in case['files']}
+    MROS.clear()
+    ext = {'parse': [], 'load': [], 'repr': [], 'strspec': [], 'glom': [], 'dumps': [], 'scalar': [], 'read': [],
+           'stdin_text': None, 'stdin_err': None}
+    # what reading gives: files whose content is not a text of the case (bytes, a directory) are
+    # read back the way the CLI reads them; standard input given as bytes is decoded strictly
+    files = {}
+    for p, c in case['files']:
+        if isinstance(c, dict):
+            st, v = try_call(read_text, real(p))
+            ext['read'].append([p, {'ok': v.replace(TMP, T)} if st == 'ok' else {'err': v}])
+            files[p] = v.replace(TMP, T) if st == 'ok' else None
+        else:
+            files[p] = c
+    stdin_text = case['stdin']
+    if isinstance(stdin_text, dict):
+        st, v = try_call(lambda: io.TextIOWrapper(io.BytesIO(file_bytes(case['stdin'])), encoding='utf-8',
+                                                  errors='strict').read())
+        stdin_text = v if st == 'ok' else ''
+        ext['stdin_text'], ext['stdin_err'] = (v, None) if st == 'ok' else (None, v)
     ids = Ids()
     loaders = {'json': json.loads, 'python-literal': ast.literal_eval}
     try:
@@ -111,7 +167,7 @@ def oracle(case):
         tcands.append(av['posargs'][1])
     if av.get('target_file') and files.get(av['target_file']) is not None:
         tcands.append(files[av['target_file']])
-    tcands.append(case['stdin'])
+    tcands.append(stdin_text)
     tcands = [t for t in dict.fromkeys(tcands) if t]
     scands = []
     if av['posargs']:
@@ -119,7 +175,6 @@ def oracle(case):
     if av.get('spec_file') and files.get(av['spec_file']) is not None:
         scands.append(files[av['spec_file']])
     scands = [s for s in dict.fromkeys(scands) if s]
-    ext = {'parse': [], 'load': [], 'repr': [], 'strspec': [], 'glom': [], 'dumps': [], 'scalar': []}
     targets = {}
     specs = {}
     e_spec = glom.Path()
@@ -127,8 +182,11 @@ def oracle(case):
     specs[ext['empty_spec']] = e_spec
     ext['empty_target'] = ids.of('T', {})
     targets[ext['empty_target']] = {}
+    own = FMT_KIND.get(av.get('target_format') or 'json')
     for text in tcands:
         for kind, f in loaders.items():
+            if len(text) > LONG_TEXT and kind != own:
+                continue
             st, v = try_call(f, real(text))
             if st == 'ok':
                 i = ids.of('T', v)
@@ -182,6 +240,7 @@ def oracle(case):
         except Exception:
             s = '<str-raises>'
         ext['scalar'].append([ri, bool(is_scalar(r)), s.replace(TMP, T)])
+    ext['mro'] = sorted([k, v] for k, v in MROS.items())
     return ext
 
 
@@ -193,6 +252,22 @@ class FakeStdin(io.StringIO):
 
     def isatty(self):
         return self._tty
+
+
+class ByteStdin(io.TextIOWrapper):
+    """a standard input of BYTES, decoded the way a UTF-8 locale decodes it (strictly)"""
+    def __init__(self, data, tty):
+        super().__init__(io.BytesIO(data), encoding='utf-8', errors='strict')
+        self._tty = tty
+
+    def isatty(self):
+        return self._tty
+
+
+def make_stdin(case):
+    if isinstance(case['stdin'], dict):
+        return ByteStdin(file_bytes(case['stdin']), case['tty'])
+    return FakeStdin(real(case['stdin']), case['tty'])
 
 
 def build_cmdline(av):
@@ -214,7 +289,12 @@ def run_impl(case):
     os.makedirs(TMP)
     try:
         for p, c in case['files']:
-            if c is not None:
+            if isinstance(c, dict) and c.get('dir'):
+                os.makedirs(real(p))
+            elif isinstance(c, dict):
+                with open(real(p), 'wb') as f:
+                    f.write(file_bytes(c))
+            elif c is not None:
                 with open(real(p), 'w') as f:
                     f.write(real(c))
         out['ext'] = oracle(case)
@@ -224,14 +304,20 @@ def run_impl(case):
             return out
         so, se = io.StringIO(), io.StringIO()
         old_in = sys.stdin
-        sys.stdin = FakeStdin(real(case['stdin']), case['tty'])
+        sys.stdin = make_stdin(case)
         try:
             with contextlib.redirect_stdout(so), contextlib.redirect_stderr(se):
                 try:
                     rc = cli.main(['glom'] + build_cmdline(case['argv']))
                     outcome = {'exit': [int(rc or 0), so.getvalue().replace(TMP, T)]}
-                except UsageError:
-                    outcome = {'usage': True}
+                except UsageError as ue:
+                    # a usage error: non-zero status and NO result on standard output
+                    if so.getvalue():
+                        outcome = {'exc': '<result-printed-before-usage-error>'}
+                    elif ue.code in (0, None):
+                        outcome = {'exit': [0, '']}
+                    else:
+                        outcome = {'usage': True}
                 except CommandLineError:
                     outcome = None
                 except SystemExit as e:
@@ -453,13 +539,13 @@ def mutate(rng, case):
     if k in (0, 11):      # malformed target: whichever text is the target
         if av['target_file'] and av['target_file'] != '-' and c['files']:
             for f in c['files']:
-                if f[0] == av['target_file'] and f[1]:
+                if f[0] == av['target_file'] and f[1] and isinstance(f[1], str):
                     f[1] = malform(rng, f[1])
         elif len(av['posargs']) == 2 and av['posargs'][1] != '-':
             av['posargs'][1] = malform(rng, av['posargs'][1])
             if av['posargs'][1][:1] == '-':
                 av['posargs'][1] = ' ' + av['posargs'][1]
-        else:
+        elif isinstance(c['stdin'], str):
             c['stdin'] = malform(rng, c['stdin'])
     elif k == 1:    # missing target file
         if len(av['posargs']) == 2:
@@ -588,6 +674,157 @@ def hostile_target_cases():
             yield c
 
 
+# ------------------------------------------------------------------ malformed targets BY RAISED CLASS
+_FACTS = []
+
+
+def facts_mod():
+    """extract/facts/c19.py: the catalogue of malformed texts and the probe (shared with the extractor,
+    which turns the probe's classes into the fact the handler of mw_handle_target is checked against)"""
+    if not _FACTS:
+        import importlib.util
+        fp = os.path.join(os.path.dirname(os.path.dirname(os.path.dirname(os.path.abspath(__file__)))),
+                          'extract', 'facts', 'c19.py')
+        spec = importlib.util.spec_from_file_location('c19_facts_for_harness', fp)
+        m = importlib.util.module_from_spec(spec)
+        spec.loader.exec_module(m)
+        _FACTS.append(m)
+    return _FACTS[0]
+
+
+KIND_FMTS = {'json': [None, 'json'], 'python-literal': ['python'], 'yaml-safe': ['yaml', 'yml'], 'toml': ['toml']}
+_GROUPS = []
+
+
+def class_groups():
+    """[(loader kind, raised class, [texts])]: the real loaders run on the catalogue, grouped by the class
+    each raises (a text a loader accepts is no malformed target and is left to the ordinary stream)"""
+    if not _GROUPS:
+        for kind, groups in sorted(facts_mod().probe().items()):
+            for cls, g in sorted(groups.items()):
+                if cls != 'OK':
+                    _GROUPS.append((kind, cls, g['texts']))
+    return _GROUPS
+
+
+def raised_class(kind, text):
+    f = facts_mod().loaders().get(kind)
+    try:
+        f(text)
+        return 'OK'
+    except BaseException as e:      # measuring the loader
+        return type(e).__name__
+
+
+def embed(rng, kind, frag):
+    """the malformed fragment inside a generated, otherwise well-formed document of the format"""
+    if len(frag) > 200:
+        return frag
+    if kind in ('json', 'python-literal'):
+        inner = gen_value(rng, rng.choice([0, 1, 2]))
+        doc = rng.choice([{'a': inner, 'zz': '@@F@@'}, [inner, '@@F@@'], {'a': {'b': ['@@F@@']}}, {'zz': '@@F@@', 'a': inner}])
+        text = json.dumps(doc) if kind == 'json' else repr(doc)
+        return text.replace('"@@F@@"' if kind == 'json' else "'@@F@@'", frag)
+    if kind == 'yaml-safe':
+        ind = '  '
+        body = '\n'.join(ind + ln for ln in frag.split('\n'))
+        return rng.choice(['k0: 1\nzz:\n' + body + '\n', 'zz:\n' + body + '\nname: x\n', '- 1\n-\n' + body + '\n'])
+    if kind == 'toml':
+        return rng.choice(['"k0" = 1\n' + frag + '\n', '[t]\nx = "y"\n' + frag + '\n', frag + '\n"name" = "x"\n'])
+    return frag
+
+
+CLASS_SPECS = ['a', 'a.b', "{'x': 'a'}", "('a', 'b')", 'zz', "['a']", "'a'"]
+DELIVERIES = ['argv', 'file', 'dash', 'dashfile', 'piped']
+
+
+def malformed_by_class_cases(rng, reps=1, exhaustive_texts=False):
+    """every class each loader raises on text, in every delivery of the target: the expected outcome is
+    the usage error whatever the class"""
+    for kind, cls, texts in class_groups():
+        picks = texts if exhaustive_texts else [rng.choice(texts) for _ in range(reps)]
+        for frag in picks:
+            shift = rng.randrange(len(DELIVERIES))
+            for i in range(len(DELIVERIES)):
+                tv = DELIVERIES[(i + shift) % len(DELIVERIES)]
+                text = frag
+                if rng.random() < 0.5:
+                    e = embed(rng, kind, frag)
+                    if raised_class(kind, e) == cls:       # still the class this group is about
+                        text = e
+                if tv == 'argv' and (text[:1] == '-' or '\x00' in text):
+                    tv = rng.choice(['file', 'piped'])     # not a positional argument a shell can pass
+                spec = rng.choice(CLASS_SPECS)
+                sv = rng.choice(SPEC_VIAS)
+                yield assemble(spec, text, sv, tv, rng.choice(KIND_FMTS[kind]),
+                               rng.choice([None, None, 0, 2]), rng.random() < 0.2,
+                               junk=rng.choice(['', '{"junk": 1}']), tty=rng.random() < 0.6,
+                               spec_name=rng.choice(SPEC_NAMES))
+
+
+# ------------------------------------------------------------------ targets that cannot be read
+def not_utf8(rng, text):
+    """bytes that are no UTF-8 text, derived from a well-formed document"""
+    b = text.encode('utf-8')
+    k = rng.randrange(6)
+    if k == 0:
+        return ('\u00fc' + text).encode('latin-1', 'replace')           # a Latin-1 file
+    if k == 1:
+        return text.encode('utf-16')                                    # BOM ff fe + NULs
+    if k == 2:
+        i = rng.randrange(len(b) + 1)
+        return b[:i] + rng.choice([b'\xff', b'\x80', b'\xc3', b'\xed\xa0\x80', b'\xf8\x88\x80\x80\x80']) + b[i:]
+    if k == 3:
+        return b + b'\xc3'                                              # truncated multi-byte sequence at the end
+    if k == 4:
+        return b'\xfe\xff' + b
+    return b.replace(b'"', b'\x93', 1) if b'"' in b else b'\xa0' + b  # a cp1252 quote
+
+
+def unreadable_cases(rng, n):
+    """the target (file or standard input) or the spec file is not text / not a file: bytes that are no
+    UTF-8, a directory; and — the other side of the same class — bytes that ARE UTF-8 (multi-byte
+    characters, a BOM), which must be read like any text"""
+    for i in range(n):
+        fmt = rng.choice(['json', None, 'python', 'yaml', 'toml'])
+        eff = fmt or 'json'
+        target = gen_value(rng, rng.choice([1, 2]), toml=(eff == 'toml'))
+        if eff == 'toml' and not isinstance(target, dict):
+            target = {'a': target}
+        if isinstance(target, dict):
+            target.setdefault('name', '\u00fcn\u00ef')
+        tt = serialise(rng, target, eff)
+        st = spec_text(rng, gen_spec(rng, target))
+        sv = rng.choice(SPEC_VIAS)
+        if sv == 'argv' and (not st or st[0] == '-'):
+            sv = 'file'
+        k = i % 6
+        tv = rng.choice(['file', 'dash', 'dashfile', 'piped'])
+        c = assemble(st, tt, sv, tv, fmt, None, False, tty=rng.random() < 0.6, spec_name=rng.choice(SPEC_NAMES))
+        if k in (0, 1, 2):          # undecodable target
+            data = {'bytes': not_utf8(rng, tt).hex()}
+        elif k == 3:                # decodable bytes: the same text, possibly with multi-byte characters
+            data = {'bytes': tt.encode('utf-8').hex()}
+        elif k == 4:                # a directory where the target file should be
+            tv, data = 'file', {'dir': True}
+            c = assemble(st, tt, sv, tv, fmt, None, False, spec_name=rng.choice(SPEC_NAMES))
+        else:                       # the SPEC file is not text / a directory (the property is silent; the tie is not)
+            c = assemble(st, tt, 'file', rng.choice(['argv', 'file', 'piped']), fmt, None, False,
+                         spec_name=rng.choice(SPEC_NAMES))
+            for f in c['files']:
+                if f[0] == c['argv']['spec_file']:
+                    f[1] = rng.choice([{'bytes': not_utf8(rng, st).hex()}, {'dir': True}, {'bytes': st.encode('utf-8').hex()}])
+            yield c
+            continue
+        if tv == 'file':
+            for f in c['files']:
+                if f[0] == c['argv']['target_file']:
+                    f[1] = data
+        elif 'bytes' in data:
+            c['stdin'] = data
+        yield c
+
+
 def generate(rng, tier, scale, **focus):
     n = (700 if tier == 'quick' else 12000) * scale
     last = None
@@ -597,7 +834,11 @@ def generate(rng, tier, scale, **focus):
             continue
         last = gen_case(rng)
         yield last
+    yield from malformed_by_class_cases(rng, reps=1 if tier == 'quick' else 4, exhaustive_texts=False)
+    yield from unreadable_cases(rng, (36 if tier == 'quick' else 600) * scale)
     if not focus:
+        if tier == 'thorough':
+            yield from malformed_by_class_cases(rng, exhaustive_texts=True)
         yield from exhaustive(tier)
 
 
